@@ -224,6 +224,21 @@ CLAIMS = {
             "the captured / transformed value of every fix variable.",
             "the variant tables are the quantifier: other ways of breaking a document are not generated",
             "DESIGN.md section 3 C12"),
+    "C13": ("model_checking",
+            "TLA+ model of TopologicalSort with a nondeterministic map iteration order (TopoSort.tla) model-checked by TLC "
+            "over all dependency graphs x all iteration orders; real project run in fresh processes under key/file "
+            "permutations, outputs and topo_order hook events judged by TLC",
+            "TopoSort.tla leaves the HashMap's iteration order open (any permutation) and transcribes the DFS with its "
+            "seen/completed marks; TLC checks for every dependency graph on 3-4 keys and every order: a cycle is reported "
+            "iff one exists, the result is a topological order of all keys, and a value computed along it is independent "
+            "of the iteration order. A project with inter-dependent utilities, transformations (substring/replace/convert/"
+            "rewrite+joinBy), constraints, rewriters, global utility files, overlapping languageGlobs and tests is written "
+            "with permuted keys and rule-file names and scanned by 6-24 fresh sgv processes per permutation; Trace_C13 "
+            "requires identical canonicalised findings/messages/fixes/exit status everywhere, sg test -U followed by sg test "
+            "to pass with byte-identical snapshots, and every observed topo_order event to be a topological permutation.",
+            "hash orders are sampled by launching processes (the evidence reports how many distinct orders were observed); "
+            "one project family",
+            "DESIGN.md section 3 C13"),
 }
 
 NOT_YET = "check not built yet in this round (construction order in DESIGN.md section 9); not claimed until it runs"
